@@ -24,7 +24,8 @@ ASSUMPTIONS = [
     "tabled programs are function-free, positive, range-restricted (every head variable occurs in the body), at most 6 constants, 4 variables per rule, 3 tabled predicates of arity <= 2",
     "untabled cross-check only on programs whose SLD tree is finite by construction (acyclic predicate dependency graph, or right recursion through an acyclic edge relation)",
 ]
-IMPL_ENV = {"SV_TIMEOUT_MS": "60000"}
+IMPL_ENV = {"SV_TIMEOUT_MS": "20000"}        # first pass; a query that hits it is re-run alone with 60 s
+RETRY_ENV = {"SV_TIMEOUT_MS": "60000"}
 
 CONSTS = ["a", "b", "1", "c", "2", "d"]          # constant i of the model is this Prolog constant
 CANON = {"'a'": 0, "'b'": 1, "1": 2, "'c'": 3, "2": 4, "'d'": 5}
@@ -648,7 +649,7 @@ class ContGen:
             if "yield" in eff:
                 opts += ["getyield"]
         if depth > 0:
-            opts += ["ite", "call", "seq", "seq", "seq", "seq", "seq", "userpred", "userpred"]
+            opts += ["ite", "call", "seq", "seq", "seq", "seq", "seq", "userpred", "userpred", "cut"]
             if "yield" in eff and not numeric:
                 opts += ["collect", "take", "innerstate"]
             if "yield" in eff:
@@ -663,6 +664,10 @@ class ContGen:
             return conj(self.body(depth - 1, eff, numeric), self.body(depth - 1, eff, numeric))
         if k == "unify":
             return S("=", self.fresh(), self.val())
+        if k == "cut":
+            # a cut after a shift: executed in the resumed continuation (the cut point stored in the
+            # captured environment chunk is adjusted by '$call_continuation'); a no-op in this fragment
+            return conj(self.body(depth - 1, eff, numeric), A("!"), self.body(depth - 1, eff, numeric))
         if k == "yield":
             return sh(S("yield", self.num() if numeric else self.val()))
         if k == "fromlist":
@@ -898,13 +903,31 @@ def run(ctx):
             k += 1
     t0 = time.time()
     impl, model = diff.run_cases(cases, impl_env=IMPL_ENV)
-    # cases with a transient problem (watchdog under machine load, lost machine) are run again alone
+    # cases with a transient problem (watchdog under machine load, lost machine) are run again, one at a
+    # time, with the long watchdog and only up to their first affected query. If a whole batch of 6 is
+    # still affected the problem is systematic (not load): the remaining ones are judged as they are.
     flaky = [c for c in cases if any(transient(impl.get(core.line_id(l), "missing")) for l in c["impl"])]
-    if flaky:
-        impl2, _ = diff.run_cases([{"id": c["id"], "impl": c["impl"]} for c in flaky[:300]],
-                                  impl_env=IMPL_ENV, parallel=False)
-        impl.update(impl2)
-    core.log("[C38] correspondence run: %d cases, %.1fs, %d retried" % (len(cases), time.time() - t0, len(flaky)))
+    retried = 0
+    for k in range(0, len(flaky), 6):
+        batch = flaky[k:k + 6]
+        still = 0
+        for c in batch:
+            lines = []
+            for l in c["impl"]:
+                lines.append(l)
+                if l.startswith("Q") and transient(impl.get(core.line_id(l), "missing")):
+                    break
+            impl2, _ = diff.run_cases([{"id": c["id"], "impl": lines}], impl_env=RETRY_ENV, parallel=False)
+            retried += 1
+            bad = any(transient(impl2.get(core.line_id(l), "missing")) for l in lines)
+            still += 1 if bad else 0
+            if not bad and len(lines) < len(c["impl"]):
+                # the rest of the case, now that the first slow query went through
+                impl2, _ = diff.run_cases([{"id": c["id"], "impl": c["impl"]}], impl_env=RETRY_ENV, parallel=False)
+            impl.update(impl2)
+        if still == len(batch):
+            break
+    core.log("[C38] correspondence run: %d cases, %.1fs, %d retried" % (len(cases), time.time() - t0, retried))
     findings = []
     stats = {"queries": 0, "nonempty": 0, "untabled_checked": 0, "modes": {}, "rounds": {}, "outcomes": {}}
     kinds, feats, ncontc = {}, {}, 0
@@ -944,7 +967,7 @@ def run(ctx):
         "samples": [c["text"] for c in cases[:1]] + [c["text"] for c in cases[-2:]],
         "traces_validated_against_impl": agree,
         "disagreements_checked": len(cases) - agree,
-        "retried_after_timeout": len(flaky),
+        "retried_after_timeout": retried,
         "tabling_queries": stats["queries"],
         "tabling_queries_with_answers": stats["nonempty"],
         "untabled_crosschecked_queries": stats["untabled_checked"],
